@@ -22,21 +22,22 @@ TRACE_FAMS = {
     "T_cascadeIdx": dict(T_BASE, BossMode="idxNull", TeamMode="idxCascade"),
     "T_entity": dict(T_BASE, LinksViaEntity=True, TeamMode="idxNull"),
     "T_ext": dict(T_BASE, ChildExtended=True, TeamMode="conNoneNull"),
+    "T_child": dict(T_BASE, ChildFeatures=True, TeamMode="idxNull", Ops=ALL_CALLS | fs("updateTeam")),
 }
 for k, v in TRACE_FAMS.items():
     F.FAMILIES[k] = v
 
 # which property owns a part of the abstract state (field of the db record)
 FIELD_OWNER = dict(uName="C03", uNick="C03", sRoles="C03", sKeys="C03", uGrade="C03,C15", backBoss="C04", backTeam="C04", lnkPT="C05", lnkTP="C05",
-                   rcPT="C05", rcTP="C05", ext="C15", ent="core", tms="core")
+                   rcPT="C05", rcTP="C05", ext="C15", ent="core", tms="core", chief="C04,C15", backChief="C04,C15", lnkST="C05,C15", lnkTS="C05,C15")
 
 # the calls a property's trace runs concentrate on (None = all)
 FOCUS = {
     "C03": ["create", "update", "delete", "deleteWhere", "callerError"],
-    "C04": ["create", "update", "delete", "deleteWhere", "createTeam", "deleteTeam", "callerError"],
+    "C04": ["create", "update", "delete", "deleteWhere", "createTeam", "updateTeam", "deleteTeam", "callerError"],
     "C05": ["create", "delete", "createTeam", "deleteTeam", "addLinks", "removeLinks", "setLinks", "addLink", "removeLink", "rcInc", "rcDec", "rcSet", "callerError"],
     "C06": None, "C07": None,
-    "C15": ["create", "update", "delete", "deleteWhere", "callerError"],
+    "C15": None,
     "C16": ["create", "update", "delete", "deleteWhere", "createTeam", "deleteTeam", "callerError"],
 }
 
@@ -55,7 +56,7 @@ def driver_cfg(fam, tokens, ops, sys, veto, max_ops):
                 trace=dict(universe=dict(ids=sorted(c["Ids"]), teams=sorted(c["Teams"]), names=sorted(c["Names"]), nicks=sorted(c["Nicks"]),
                                          roles=sorted(c["Roles"]), grades=sorted(c["Grades"])),
                            vias=sorted(c["Vias"]), ops=sorted(ops), linksViaEntity=c["LinksViaEntity"], boss=c["BossMode"] != "off", team=c["TeamMode"] != "off",
-                           sys=sys, veto=veto, maxOps=max_ops))
+                           sys=sys, veto=veto, maxOps=max_ops, childFeatures=c.get("ChildFeatures", False)))
 
 
 def owners_of(reject):
@@ -160,7 +161,8 @@ def validate(ctx, bindir, prop, fam, tokens, traces, txs, seed, tag="", sys=True
         start = max([i for i in range(v["at"]) if '"op":"reset"' in all_lines[i]] + [-1]) + 1
         if prop in own or "core" in own:
             ctx.violation("trace:%s:%s:%s" % (v["op"], v["model"].get("res"), "+".join(sorted(v["differs"])) or v["logged"].get("cls", "")), what,
-                          dict(kind="storetrace", family=fam, driver=json.load(open(cfgp)), lines=[json.loads(x) for x in all_lines[start:v["at"]]]))
+                          dict(kind="storetrace", prop=prop, family=fam, tokens=tokens, traces=traces, txs=txs, seed=seed, sys=sys, veto=veto, max_ops=max_ops,
+                               driver=json.load(open(cfgp)), lines=[json.loads(x) for x in all_lines[start:v["at"]]]))
         else:
             ctx.cov.setdefault("foreign_rejections", []).append(dict(family=fam, owners=sorted(own), what=what[:300]))
     if selftest and v["verdict"] == "accepted":
